@@ -79,6 +79,9 @@ TIE_SEARCH = {
     "vm_binary_op_type_error": ("TieVm", "vm_binary_op_impl(Subtract)"), "vm_logical_not_effect": ("TieVm", "vm_logical_not_impl"),
     "vm_negate_number": ("TieVm", "vm_negate_impl"), "vm_negate_type_error": ("TieVm", "vm_negate_impl"),
     "vm_bitwise_not_number": ("TieVm", "vm_bitwise_not_impl"), "jump_roundtrip": ("TieVm", "vm_jump_impl"), "loop_roundtrip": ("TieVm", "vm_loop_impl"),
+    "emit_return_skeleton": ("TieStatements", "emit_return"), "return_statement_skeleton": ("TieStatements", "return_statement"),
+    "throw_statement_skeleton": ("TieStatements", "throw_statement"), "try_statement_skeleton": ("TieStatements", "try_statement"),
+    "try_statement_no_clause": ("TieStatements", "try_statement"),
     "vm_unwind_contract": ("TieHandlers", "vm_unwind_stack"), "vm_unwind_uncaught": ("TieHandlers", "vm_unwind_stack"),
     "vm_push_handler_effect": ("TieHandlers", "fiber_push_exc_handler"), "vm_pop_handler_effect": ("TieHandlers", "vm_pop_exc_handler_impl"),
     "vm_jump_finally_effect": ("TieHandlers", "vm_jump_finally_impl"), "vm_end_finally_pending_return": ("TieHandlers", "vm_end_finally_impl"),
